@@ -610,6 +610,19 @@ pub fn run(ctx: &Ctx) -> Report {
         d.ops = vec![(0, Op::PutRecordToPeers(0))];
         d.max_outgoing = None;
         v.push(d);
+        // directed: one target can never be reached (address of a transport that is not enabled): a
+        // quorum that needs it must not be reported as reached
+        for (k, (q, nh)) in [(2u8, 1usize), (255, 1), (3, 2), (255, 2)].iter().enumerate() {
+            if (k + ctx.shard) % 2 == 1 {
+                let mut d = scen_from_seed(rng.u64());
+                d.placements = vec![Placement::Healthy; *nh];
+                d.placements.push(Placement::UndialableAddress);
+                d.ops = vec![(0, Op::PutRecordToPeers(*q))];
+                d.max_outgoing = None;
+                d.replication = 3;
+                v.push(d);
+            }
+        }
         // directed: no target is usable at all: a quorum of N/All must not be reported as reached
         for (k, q) in [2u8, 255, 0, 3].iter().enumerate() {
             if (k + ctx.shard) % 2 == 0 {
